@@ -416,36 +416,7 @@ def run(chk):
         for suffix in ("", "_FFT"):
             c04.check_blind_rotate(chk, v, suffix, "R3")
         # ---------------- R4 FFT image of the key
-        ini = v.fn("init_LweBootstrappingKeyFFT")
-        ips, _ = summ.pieces(v, ini, hooks=NOINLINE)
-        obj, bk = [p["n"] for p in ini.params]
-        n_ = sym.arrow(P(bk, "in_out_params"), "n")
-        conv = calls(ips, "tGswToFFTConvert")
-        cpy = calls(ips, "lweCopy")
-        nks = calls(ips, "new_LweKeySwitchKey")
-        problems = []
-        if len(conv) != 1 or len(conv[0]["loops"]) != 1 or rng(conv[0]["loops"][0]) != (ZERO, n_):
-            problems.append("key rows converted over %s, expected [0,n)" % ([sym.show(t) for t in rng(conv[0]["loops"][0])] if conv and conv[0]["loops"] else None))
-        else:
-            i = conv[0]["loops"][0]["var"]
-            if conv[0]["args"][1] != sym.addr(sym.idx(P(bk, "bk"), i)) or conv[0]["args"][2] != P(bk, "bk_params"):
-                problems.append("converts %s" % sym.show(conv[0]["args"][1]))
-        if len(cpy) != 1 or len(cpy[0]["loops"]) != 3 or len(nks) != 1:
-            problems.append("key-switch cells are not copied in an (i,j,p) nest")
-        else:
-            Next = sym.fld(sym.fld(sym.idx(sym.arrow(P(bk, "bk_params"), "tlwe_params"), ZERO), "extracted_lweparams"), "n")
-            want = [(ZERO, Next), (ZERO, sym.arrow(P(bk, "ks"), "t")), (ZERO, sym.arrow(P(bk, "ks"), "base"))]
-            got = [rng(l) for l in cpy[0]["loops"]]
-            if got != want:
-                problems.append("copied cell ranges %s, expected [0,N_ext) x [0,t) x [0,base)" % [[sym.show(t) for t in g] for g in got])
-            i, j, p_ = (l["var"] for l in cpy[0]["loops"])
-            src = sym.addr(sym.idx(sym.idx(sym.idx(sym.arrow(P(bk, "ks"), "ks"), i), j), p_))
-            if cpy[0]["args"][1] != src:
-                problems.append("copies from %s" % sym.show(cpy[0]["args"][1]))
-            if nks[0]["args"][:3] != [Next, sym.arrow(P(bk, "ks"), "t"), sym.arrow(P(bk, "ks"), "basebit")]:
-                problems.append("new key-switch key dimensioned %s" % [sym.show(a) for a in nks[0]["args"][:3]])
-        chk.require(not problems, "R4", "init_LweBootstrappingKeyFFT converts every bk[i], i < n, and copies every key-switch cell", where=ini.where,
-                    ok="tGswToFFTConvert(&bkFFT[i], &bk->bk[i]) for i<n; lweCopy over N_ext x t x base", bad="; ".join(problems), variant=vn)
+        c04.check_fft_key(chk, v, rule="R4")       # every bk[i], i < n, converted; every key-switch cell copied to the same cell (enumerated)
         # every row / component is converted exactly once, source index = destination index: the calls' pointer arguments are
         # split into (array, offset) and the offsets enumerated over their loop nests for small dimensions
         from sa import concrete
